@@ -170,6 +170,9 @@ func (o Op) String() string {
 	case "ResetOp-if-failed":
 		return "ResetOp (if the destination has failed)"
 	case "ReadFromErr":
+		if o.Chunk == -2 {
+			return fmt.Sprintf("ReadFrom(%s bytes, then the source only returns 0, nil)", o.Rel)
+		}
 		if o.Chunk < 0 {
 			return fmt.Sprintf("ReadFrom(%s bytes together with source error)", o.Rel)
 		}
@@ -222,6 +225,9 @@ func Alphabet(S int) []Op {
 	if S > 4 {
 		ops = append(ops, Op{Kind: "ReadFromErr", K: S + 2, Rel: "S+2"})
 	}
+	// a source that delivers exactly one buffer and then makes no progress (0, nil for ever): ReadFrom
+	// gives up with io.ErrNoProgress, and what it reported as accepted still belongs to the message
+	ops = append(ops, Op{Kind: "ReadFromErr", K: S, Rel: "S", Chunk: -2})
 	ops = append(ops, Op{Kind: "FlushFragment"}, Op{Kind: "Flush"})
 	for _, x := range []struct {
 		k int
@@ -230,6 +236,25 @@ func Alphabet(S int) []Op {
 		ops = append(ops, Op{Kind: "Grow", K: x.k, Rel: x.n})
 	}
 	return ops
+}
+
+// stuckSrc delivers its data and then makes no progress: every further Read returns 0, nil.
+type stuckSrc struct {
+	data  []byte
+	off   int
+	after int
+}
+
+func (s *stuckSrc) Read(p []byte) (int, error) {
+	if s.off < len(s.data) {
+		n := copy(p, s.data[s.off:])
+		s.off += n
+		return n, nil
+	}
+	if s.after++; s.after > 100000 {
+		panic("wops: ReadFrom keeps reading a source that makes no progress")
+	}
+	return 0, nil
 }
 
 // Byte is the payload byte at absolute stream position i.
@@ -383,11 +408,17 @@ func (s *Session) Apply(o Op) *explore.Fail {
 		src.EndErr = env.ErrSource
 		src.WithLast = o.Chunk < 0
 		var srcErr error
-		n, srcErr = w.ReadFrom(src)
+		wantErr := error(env.ErrSource)
+		if o.Chunk == -2 {
+			wantErr = io.ErrNoProgress
+			n, srcErr = w.ReadFrom(&stuckSrc{data: src.Data})
+		} else {
+			n, srcErr = w.ReadFrom(src)
+		}
 		if srcErr == nil {
 			return explore.Failf("ReadFrom-swallows-source-error", "")
 		}
-		if srcErr != env.ErrSource {
+		if srcErr != wantErr {
 			err = srcErr // a writer-side failure
 		}
 		if int(n) > o.K {
